@@ -258,7 +258,8 @@ class Shrinker:
             if "key" in o:
                 used.add(o["key"])
         for f in b.get("faults", []):
-            used.add(f["key"])
+            if f.get("key") is not None:
+                used.add(f["key"])
         n = len(b["knobs"]["keys"])
         if len(used) == n or not used:
             return
@@ -277,7 +278,8 @@ class Shrinker:
             if "key" in o:
                 o["key"] = remap[o["key"]]
         for f in c.get("faults", []):
-            f["key"] = remap[f["key"]]
+            if f.get("key") is not None:
+                f["key"] = remap[f["key"]]
         self._try(c)
 
     def shrink_sizes(self):
